@@ -2,9 +2,9 @@
 import itertools
 import random
 
-STEMS_AKAI = ["A", "AB", "B", "PAD", "A 1", "A+1", "A.", "A-", "0", "#1", "A (2)", "B (2)", "..", ".", "-", "L", "R", "A  B"]
+STEMS_AKAI = ["A", "A.WAV", "AB", "B", "PAD", "A 1", "A+1", "A.", "A-", "0", "#1", "A (2)", "B (2)", "..", ".", "-", "L", "R", "A  B"]
 SUFFIXES = ["", " L", " R", "-L", "-R", "  L", " -R", "--L", "- R", "L", "R", " (2)", " (2) L", " (3)"]
-HOSTILE = ["..", "../x", "a/b", "a\\b", "a\\\\b", "C:\\x", "'q'", 'x"y', "a\tb", "\x01\x02", "a:b", ":a", "a:", "::", " lead", "trail ",
+HOSTILE = ["Intro", "Intro.wav", "Intro.WAV", "x.wav.wav", ".wav", "..", "../x", "a/b", "a\\b", "a\\\\b", "C:\\x", "'q'", 'x"y', "a\tb", "\x01\x02", "a:b", ":a", "a:", "::", " lead", "trail ",
            "a..", "a. .", "a .", "-x", ".x", "x-", "x.", "~", "", " ", "a`b", "é".encode("latin-1").decode("latin-1"), "CON", "a*b?", "<x>|", "a=b", "x@y", "a&b"]
 
 
